@@ -154,9 +154,18 @@ func (r *Run) finish(verif string, known *knownFile, seed int64) int {
 		count[o.Rule]++
 	}
 	for _, ri := range r.rules {
-		if count[ri.Name] < ri.Min {
+		// The declared minimum is the number of sites confirmed by hand on the pinned tree.
+		// A refactoring that merges or removes a few legitimate sites keeps the property, so
+		// the guard trips only when the rule has lost a substantial part of its sites (more
+		// than a third, or any site of a rule with at most three): that is when it no longer
+		// sees what it was written for.
+		floor := ri.Min
+		if ri.Min > 3 {
+			floor = (2*ri.Min + 2) / 3
+		}
+		if count[ri.Name] < floor {
 			r.obs = append(r.obs, Ob{Rule: ri.Name, Construct: "RULE-INSTANCE-COUNT " + ri.Name, Pos: "-", Status: Violated,
-				Detail: fmt.Sprintf("rule matched %d sites, fewer than the %d confirmed on the pinned tree: the rule would pass vacuously", count[ri.Name], ri.Min)})
+				Detail: fmt.Sprintf("rule matched %d sites, the pinned tree had %d (guard at %d): the rule no longer sees the sites it was confirmed on and would pass vacuously", count[ri.Name], ri.Min, floor)})
 		}
 	}
 	sort.SliceStable(r.obs, func(i, j int) bool {
